@@ -5,6 +5,7 @@ import (
 	"encoding/base64"
 	"fmt"
 	"net/http"
+	"strings"
 	"time"
 
 	"github.com/cnotch/ipchub/av/format/rtp"
@@ -122,6 +123,30 @@ func buildC07src(tier string, fromCamera bool) sim.Scenario {
 				"v=0\r\nm=video 99999999999999999999 RTP/AVP 96\r\na=rtpmap:96 H264/4294967296\r\na=control:streamid=0\r\n",
 				"m=\r\n",
 			}[tp.Choose(6)]
+			// or a well-formed description damaged at one place: cut at an offset, one byte replaced, a parameter set replaced by
+			// bytes that are valid base64 but no parameter set
+			good := []string{sdpH264AAC, sdpH265AAC}[tp.Choose(2)]
+			switch tp.Choose(5) {
+			case 1:
+				sdp = good[:tp.Choose(len(good))]
+			case 2:
+				b := []byte(good)
+				b[tp.Choose(len(b))] = byte(tp.Raw())
+				sdp = string(b)
+			case 3:
+				junk := make([]byte, 1+tp.Choose(40))
+				for i := range junk {
+					junk[i] = byte(tp.Raw())
+				}
+				j64 := base64.StdEncoding.EncodeToString(junk)
+				sdp = spropRe.ReplaceAllString(good, "sprop-parameter-sets="+j64+","+j64)
+				if good == sdpH265AAC {
+					sdp = strings.Replace(good, "sprop-sps=", "sprop-sps="+j64+";x-was=", 1)
+					if tp.Bool() {
+						sdp = strings.Replace(good, "sprop-vps=", "sprop-vps="+j64+";x-was=", 1)
+					}
+				}
+			}
 			w.Fault("hostile-sdp")
 			w.Probe("c07.fault-injected")
 		}
